@@ -645,6 +645,25 @@ def m_opt_ok_or_else(I, st, call):
     return out
 
 
+@model("core::option::Option::<T>::is_some_and", "core::option::Option::<T>::is_none_or",
+       "core::result::Result::<T, E>::is_ok_and", "core::result::Result::<T, E>::is_err_and")
+def m_is_some_and(I, st, call):
+    sp = _opt_arg(I, st, call)
+    if sp is None:
+        return None
+    hit = {"is_some_and": 1, "is_none_or": 1, "is_ok_and": 0, "is_err_and": 1}[call.name]
+    out = []
+    for s, vi, p in sp:
+        if vi != hit:
+            out.append((s, boolv(call.name == "is_none_or")))
+        else:
+            rs = call_fn_value(I, s, call, call.args[1], call.arg_tys[1], [p.fields[0]], call.name)
+            if rs is None:
+                return None
+            out.extend(rs)
+    return out
+
+
 @model("core::option::Option::<T>::map_or")
 def m_opt_map_or(I, st, call):
     sp = _opt_arg(I, st, call)
